@@ -1,45 +1,1 @@
-/-
-  C20 — `-D SYM` output is a correct conditional merge of old and new.
--/
-import PatchModel.Spec.Script
-import PatchModel.Spec.Cpp
-namespace PatchModel.C20
-open PatchModel
-
-/-- **C20**: for every file and every valid script whose lines are all terminated and free of the four directives,
-    with `-D sym`: apply_patch returns; read by a preprocessor with `sym` defined the output is exactly the new file,
-    with `sym` undefined exactly the original; in particular every conditional opened is closed (`cppEval` is `some`),
-    and nothing is rejected. Covers hunks at the first and last line, creation from an empty file (file = []),
-    deletion of everything (splice = []). -/
-theorem C20_merge (file : List Line) (hs : List Hunk) (p0 : Patch) (o : ApplyOpts) (tty : Option (List Bool)) (sym : Bytes)
-    (hv : Valid file 0 0 hs) (hp : p0.hunks = hs)
-    (hsym : sym ≠ []) (hD : o.define = sym) (hR : o.reverse = false) (hF : 0 ≤ o.maxFuzz)
-    (hfileT : ∀ l ∈ file, l.newline ≠ .none)
-    (hpatchT : ∀ h ∈ hs, ∀ pl ∈ h.lines, pl.line.newline ≠ .none)
-    (hfileD : ∀ l ∈ file, notDirective sym l)
-    (hpatchD : ∀ h ∈ hs, ∀ pl ∈ h.lines, notDirective sym pl.line)
-    (hg : ∀ h ∈ hs, grouped h.lines = true) :
-    ∃ r, applyPatch file p0 o tty = .ok r ∧
-      cppEval sym true (r.out.map Out.line) = some (splice file 0 hs) ∧
-      cppEval sym false (r.out.map Out.line) = some file ∧
-      r.rejected = [] := by
-  sorry
-
-/-- lines common to both versions appear once, outside any conditional: every original line that is not deleted is
-    written exactly once and directly evaluates to itself whether or not `sym` is defined — stated on one hunk:
-    a context line of a placed hunk is preceded by a closing `#endif` whenever a conditional is open. -/
-theorem defineLoop_context_outside (file : List Line) (sym : Bytes) (pl : PatchLine) (rest : List PatchLine)
-    (cur : Nat) (st : DefState) (w : DefW) (l : Line)
-    (hop : pl.op = SP) (hl : file[cur]? = some l) :
-    defineLoop file sym (pl :: rest) cur st w =
-      defineLoop file sym rest (cur + 1) .outside
-        ((if st ≠ .outside then w.directive dEndif (terminatorOf l) else w).line (.fromFile cur l)) := by
-  sorry
-
-/-- all three diff emitters and both orders of `hunk_from_context_parts` only produce grouped hunks: a run of
-    deletions followed by a run of additions is grouped -/
-theorem grouped_minus_plus (ctx1 : List Line) (dels adds : List Line) (ctx2 : List Line) :
-    grouped (ctx1.map (⟨SP, ·⟩) ++ dels.map (⟨MINUS, ·⟩) ++ adds.map (⟨PLUS, ·⟩) ++ ctx2.map (⟨SP, ·⟩)) = true := by
-  sorry
-
-end PatchModel.C20
+import PatchModel.Props.C20
